@@ -125,6 +125,12 @@ class C04(SweepProp):
                            'asm': int(g.integers(0, 19)),
                            'cell': int(g.integers(0, 1000)),
                            'bypass': int(g.integers(0, 3))})
+        # the step-limiting cell at the inlet end and at the last executed
+        # tick: the limits are evaluated at the inlet and outlet temperatures
+        # and must hold over the whole range
+        for t in (1, 2, 0):
+            probes.append({'tick': t, 'kind': 'auto', 'asm': 0, 'cell': 0,
+                           'bypass': 0})
         case['probes'] = probes
 
     def monitors(self, case, spec):
